@@ -122,8 +122,21 @@ fn main() {
         match cmd {
             "compose" => {
                 let text = compose_doc(scenario);
+                // (compose rows carry `srcdir` in the `world` field: the document lies in a sub-directory
+                // that has dependency directories of its own, with a different test:inner in them)
+                let srcdir = r["world"] == true;
+                let src = if srcdir { "sub/in.wac" } else { "in.wac" };
+                if srcdir {
+                    let other = wat::parse_str(INNER.replace("\"x\"", "\"not-from-here\"")).unwrap();
+                    for d in ["sub/deps/test", "sub/mydeps/test", "sub/elsewhere"] {
+                        std::fs::create_dir_all(dir.join(d)).unwrap();
+                    }
+                    std::fs::write(dir.join("sub/deps/test/inner.wasm"), &other).unwrap();
+                    std::fs::write(dir.join("sub/mydeps/test/inner.wasm"), &other).unwrap();
+                    std::fs::write(dir.join("sub/elsewhere/x.wasm"), &other).unwrap();
+                }
                 if scenario != "missing-file" {
-                    std::fs::write(dir.join("in.wac"), text).unwrap();
+                    std::fs::write(dir.join(src), text).unwrap();
                 }
                 let inner = wat::parse_str(INNER).unwrap();
                 let mut overrides = HashMap::new();
@@ -160,7 +173,7 @@ fn main() {
                     args.push("-o".into());
                     args.push("out.bin".into());
                 }
-                args.push("in.wac".into());
+                args.push(src.into());
                 if scenario != "missing-file" {
                     let lib = lib_compose(dir, text, &deps_dir, overrides, x["define"] == true, x["validate"] == true);
                     match (&lib, x["exit"].as_str().unwrap()) {
